@@ -93,5 +93,9 @@ template <typename Char> constexpr auto terminate_behind_copy(Char* dest, Char c
     return dest;
 }
 
+// LITMASK: the mask is an unsigned int although the word may be 64 bits wide
+template <typename Word> constexpr auto narrow_mask(Word w, Word offset) -> bool { return (w & (1U << offset)) != 0U; }
+template <typename Word> constexpr auto word_mask(Word w, Word offset) -> bool { return (w & (Word(1) << offset)) != Word(0); }
+
 } // namespace fixture
 #endif
